@@ -5,6 +5,7 @@
 import Driver.Util
 import Saltpack.Model.Armor
 import Saltpack.Model.Spec
+import Driver.Streams
 
 open Saltpack
 
@@ -212,6 +213,6 @@ def handle (toks : List String) : Option String :=
           | .ok k => some s!"res ok signer={toHex k}"
           | .error e => some s!"res {showErr e} signer=-"
     | _, _, _ => none
-  | _ => none
+  | _ => Driver3.handle toks
 
 end Driver2
